@@ -48,6 +48,8 @@ def tags(spec, cfg=None):
             out.append("concat-duplicate-input")
         if o["code"] == "CONCATENATION" and spec["tensors"][o["outputs"][0]]["shape"][:1] not in ([1], []):
             out.append("concat-batch>1")
+        if o["code"] == "CONCATENATION" and spec["tensors"][o["outputs"][0]]["dtype"] == "int32":
+            out.append("concat-int32")
     consumed = set(t for o in spec["ops"] for t in o["inputs"])
     if any(t in consumed for t in spec["outputs"]):
         out.append("output-has-consumer")
